@@ -8,28 +8,13 @@
    what the relay enqueues towards the caller for a request (k, id) is a prefix of an accepted
    word: at most one terminal frame, nothing after it. *)
 From Coq Require Import ZArith List Bool Lia.
-From Verif Require Import Base.Wrap Gen.GenConsts Gen.GenFrame Model.RelayItems Spec.WireOk Proofs.WireOkP
+From Verif Require Import Base.Wrap Gen.GenConsts Gen.GenFrame Model.RelayItems Model.RelayCalm Spec.WireOk Proofs.WireOkP
   Proofs.RelayAssocP Proofs.RelayCoreP Proofs.RelayInv9P Proofs.RelayTimerP Proofs.RelayThmP Proofs.RelaySilentP
   Proofs.RelayWireP Proofs.RelayCalmP Proofs.RelayPerCallP Proofs.RelayPairP.
 Import ListNotations.
 Local Open Scope Z_scope.
 
 (* ---------------------------------------------------------------- frames that arrived *)
-
-Definition arr_step (arr : list (Z * frame)) (l : label) : list (Z * frame) :=
-  match l with LArrive d f _ => (d, f) :: arr | _ => arr end.
-Definition arr_run (arr : list (Z * frame)) (ls : list label) : list (Z * frame) := fold_left arr_step ls arr.
-
-(* what connection d delivered for message id did, oldest first, is a prefix of an accepted word *)
-Definition dest_ok (ls : list label) : Prop :=
-  forall d did, wire_prefix_ok (wire_of d did (arr_run [] ls)) = true.
-
-Fixpoint causal_run (cf : config) (st : state) (ls : list label) : bool :=
-  match ls with
-  | [] => true
-  | l :: r => causal_step st l && match step cf st l with Some st' => causal_run cf st' r | None => true end
-  end.
-Definition causal (cf : config) (ls : list label) : Prop := causal_run cf init ls = true.
 
 Lemma wire_of_cons : forall d did d' f log,
   wire_of d did ((d', f) :: log) =
@@ -1895,3 +1880,16 @@ Proof.
   - intros l1 x l2 Heq Ht. rewrite Heq in Hp. eapply prefix_ok_terminal_last; eassumption.
   - apply prefix_ok_one_terminal. exact Hp.
 Qed.
+
+(* non-vacuity: the complete relayed call of RelaySilentP satisfies all three hypotheses; the
+   run refuting the grammar (response frame after the timeout error frame) has an overlap *)
+Example calm_example_hyps : no_overlap wit_cf calm_example /\ causal wit_cf calm_example /\ dest_ok calm_example.
+Proof.
+  split; [vm_compute; reflexivity|]. split; [vm_compute; reflexivity|].
+  intros d did. set (a := arr_run [] calm_example). vm_compute in a. subst a.
+  rewrite !wire_of_cons. cbn [wire_of app f_id].
+  destruct ((1 =? d) && (1 =? did)); destruct ((0 =? d) && (7 =? did)); reflexivity.
+Qed.
+
+Example wit_wire_overlap : sched wit_cf no_overlap_step init [] wit_wire = false.
+Proof. vm_compute. reflexivity. Qed.
